@@ -199,6 +199,7 @@ CHECKS = {
     "C09": {
         "level": "exploration",
         "parts": [{"gen": "C09", "quick": 640, "thorough": 12800, "quick_deadline_s": 420, "thorough_deadline_s": 3000},
+                  {"gen": "C09udp", "quick": 1200, "thorough": 24000},
                   {"engine": "shuttle", "quick": 20000, "thorough": 1000000}],
         "rule": "two engines. Task level (simnet): a batch of 2-8 (10%: 9-24, thorough -64) concurrent TCP flows through the real client and server over a cycling (protocol, cipher, tcp/tls/ws/wss) cell with drawn network knobs is run once all together "
                 "and once per flow alone (same seed, same slot); each flow's observable result (handshake, number of dials to its target, bytes and integrity each way, how each end saw it finish) must be identical. "
